@@ -11,7 +11,7 @@ CHECKS = {
     "C11": dict(
         category="model_checking",
         technique="stateless deviation-bounded schedule exploration (DX) of the real Session on a deterministic single-threaded runtime",
-        text="Every execution of 2 concurrent openers (+ forwarding task, + heartbeat writer) on a fresh or already used client session, for 3 padding schemes, with at most B forced pre-emptions at the named scheduling points / short or pending transport writes (B=2 quick, 3 thorough; 1/2 with transport menus) is run on the real code and its decoded wire compared with each task's submission log. Over-size first chunks (70 000 bytes, merged per-stream comparison). A trickling transport (10 bytes every 16 / 31 / 61 s of virtual time) that cuts every write in mid-frame with long stalls. One write call of a narrow transport returning Interrupted, at every call index, while two openers, the forwarding task and a keep-alive writer are active: what reached the transport is whole frames in each task's order with at most one torn frame, at the very end. Server role: the receive loop answering settings / keep-alive while two handler tasks write SYNACK and data (directly or through the forwarding task). Client level: 2 (3) concurrent create_proxy_stream calls on the real Client (dial, TLS handshake, authentication, session set-up, pool) over the in-memory dialer seam (H12) against a scripted TLS server, <= 2 deviations: per connection the settings frame is first and unique, SYN precedes data, the first data frame of every stream is its destination.",
+        text="Every execution of 2 concurrent openers (+ forwarding task, + heartbeat writer) on a fresh or already used client session, for 3 padding schemes, with at most B forced pre-emptions at the named scheduling points / short or pending transport writes (B=2 quick, 3 thorough; 1/2 with transport menus) is run on the real code and its decoded wire compared with each task's submission log. Over-size first chunks (70 000 bytes, merged per-stream comparison). A trickling transport (10 bytes every 16 / 31 / 61 s of virtual time) that cuts every write in mid-frame with long stalls. One write call of a narrow transport returning Interrupted or accepting 0 bytes (Ok(0)), at every call index, while two openers, the forwarding task and a keep-alive writer are active: what reached the transport is whole frames in each task's order with at most one torn frame, at the very end. Server role: the receive loop answering settings / keep-alive while two handler tasks write SYNACK and data (directly or through the forwarding task). Client level: 2 (3) concurrent create_proxy_stream calls on the real Client (dial, TLS handshake, authentication, session set-up, pool) over the in-memory dialer seam (H12) against a scripted TLS server, <= 2 deviations: per connection the settings frame is first and unique, SYN precedes data, the first data frame of every stream is its destination.",
         note="Trusted: the vpipe transport model (DESIGN 4.2), tokio's current-thread scheduler semantics, scheduling points only at the named hooks and transport calls, sequentially consistent atomics.",
         design="DESIGN.md §6 C11",
     ),
